@@ -77,6 +77,11 @@ CLAIMED["C19"] = ("exploration",
    "Empty payloads are outside the domain (Go's WriteMsgUnix sends a dummy byte; an empty SOCK_SEQPACKET packet is indistinguishable from EOF). One open finding is routed around (KNOWN_FINDINGS.json: first use of a gob type being oversize).",
    "stateful / model-based property testing (rapid) with a queue model; round-trip oracle", "§3 C19")
 
+CLAIMED["C20"] = ("exploration",
+   "Generated histories over a tree of groups under a unique prefix on the real v1 hierarchies of this machine and on a real cgroup2 mount in a private mount namespace (helper with second-stage re-exec): New / re-open of existing, externally created and partially pre-existing groups, Random with a collision-prone name source (tag-verif hook), Nest, AddProc of multi-threaded parked processes, limit setters with read-back, readers, Destroy of creating and merely-opening handles, 2..8 goroutines creating simultaneously. Model: created handles are distinct existing directories, Existing() is truthful, Destroy removes a group iff the handle created it, external groups survive, every thread of an added process is in the model's group in every hierarchy. Units: a real workload (250 ms CPU, 48 MiB) in a real group checks nanoseconds/bytes; a fake v2 tree with generated file contents checks the v2 readers and writers.",
+   "cgroup2 controllers (memory.max, pids.max, cpu.max) cannot be enforced on the real v2 tree of this machine (bound to v1): written values are checked on the fake tree only. Limits the kernel refuses (child above parent) are counted, not judged.",
+   "stateful / model-based property testing (rapid) on the real cgroup hierarchies + generated-content differential for readers", "§3 C20")
+
 NOT_YET = {}
 
 def main():
